@@ -70,7 +70,8 @@ def jobs(tier, seed):
         for P in range(0, 4):
             for C in range(0, 4):
                 for sub in (1, 3):
-                    J('shape %d %d %d' % (P, C, sub), shape={'P': P, 'C': C, 'sub': sub, 'F': 3}, extras=ex[5:8])
+                    if P == 0 and C == 0: continue      # frames that carry nothing: degenerate (see known finding @empty-frame-stored)
+                    J('shape %d %d %d' % (P, C, sub), shape={'P': P, 'C': C, 'sub': sub, 'F': 3}, extras=ex[5:8], symbolic_meta=(P + C <= 3))
         for i in range(0, len(ex), 2):
             J('extras %d' % i, extras=ex[i:i + 2], lay={'order': 'reversed', 'scalar_dims': 1})
     return out
